@@ -5,7 +5,7 @@ from __future__ import annotations
 import ast
 
 from .. import cfg as cfgmod
-from ..core import ancestors, AnalysisError, U, body_walk, call_name, last_attr
+from ..core import ancestors, AnalysisError, U, body_walk, call_name, last_attr, try_const
 from ..linear import GuardAnalysis, Lin, lin
 from ..selftest import M, T
 
@@ -371,6 +371,19 @@ def run(repo, rep, tier):
             rep.ob("C19.R4", raise_node, "refusal precedes every mutation", not bad,
                    "" if not bad else f"{bad} can execute before the duplicate is refused: the document is changed by a refused call",
                    key=f"C19.R4@{f.name}:{recv}")
+    # the name a new sheet / table is stored under is the name that was checked against the siblings, as given
+    for meth_, key_, param_ in (("add_sheet", "name", "sheet_name"), ("add_table", "table_name", "table_name")):
+        fm_ = repo.func("model.py", f"_NumbersModel.{meth_}")
+        if param_ not in [a.arg for a in fm_.args.args]:
+            raise AnalysisError(f"_NumbersModel.{meth_}: parameter {param_} not found")
+        stored_ = [v_ for d_ in ast.walk(fm_) if isinstance(d_, ast.Dict) for k_, v_ in zip(d_.keys, d_.values) if k_ is not None and try_const(k_) == key_]
+        stored_ += [kw.value for c_ in ast.walk(fm_) if isinstance(c_, ast.Call) for kw in c_.keywords if kw.arg == key_]
+        rebound_ = any(isinstance(x_, ast.Name) and x_.id == param_ and isinstance(x_.ctx, (ast.Store, ast.Del)) for x_ in ast.walk(fm_))
+        ok_ = bool(stored_) and all(isinstance(v_, ast.Name) and v_.id == param_ for v_ in stored_) and not rebound_
+        rep.ob("C19.R3", stored_[0] if stored_ else fm_, f"model.{meth_} stores the name it is given under `{key_}`", ok_,
+               "" if ok_ else f"the stored name is `{U(stored_[0])[:50] if stored_ else '?'}`: the duplicate check and the default-name search of the caller ran on the name as given, "
+               "so two siblings can end up with the same stored name", key=f"C19.R3@model.{meth_}:name-as-given")
+
     rep.floor("C19.R1", 4)
     rep.floor("C19.R2", 5)
     rep.floor("C19.R3", 6)
@@ -378,6 +391,7 @@ def run(repo, rep, tier):
 
 
 VARIANTS = [
+    M("model-add-sheet-name-stripped", "model.py", '            {"name": sheet_name},', '            {"name": sheet_name.strip()},', "C19.R3"),
     M("revert-fix-negative-index", "containers.py", "if key < 0 or key >= len(self._items):", "if key >= len(self._items):", "C19.R1"),
     M("upper-bound-off-by-one", "containers.py", "if key < 0 or key >= len(self._items):", "if key < 0 or key > len(self._items):", "C19.R1"),
     M("contains-no-fold-left", "containers.py", "return key.lower() in [x.name.lower() for x in self._items]", "return key in [x.name.lower() for x in self._items]", "C19.R2"),
